@@ -7,38 +7,65 @@
    exactly): the norms d0, d1, the norm n2 of the scaled difference, the
    vector-field values f0, f1 and the value of the real power.  Everything
    else is recomputed exactly by the model. *)
-From Coq Require Import List ZArith QArith Bool.
+From Coq Require Import List ZArith QArith Qabs Bool.
 From PD Require Import Model.Stepsize Run.Show.
 Import ListNotations.
 Local Open Scope Q_scope.
 
 Definition qb (b : bool) : Q := if b then 1 else 0.
 
-(* Results are printed UNREDUCED (numerator, denominator as computed): reducing
-   a sum of squares of components like 1e-300 / (atol + 1e-300 rtol) needs gcds of
-   numbers with thousands of bits, which take minutes inside vm_compute; the
-   harness reduces them (fractions.Fraction) instead. *)
-Definition zq_raw (q : Q) : list Z := [Qnum q; Zpos (Qden q)].
-Definition showQ_raw (o : option (list Q)) : list Z :=
-  match o with None => [0%Z] | Some l => 1%Z :: flat_map zq_raw l end.
+(* Vectors like (f1 - f0) / (atol + 1e-300 rtol) are rationals with thousands of
+   bits and pairwise different odd denominators: reducing or printing them (or
+   their sum of squares) takes minutes inside coqc.  The comparisons of these
+   quantities with the implementation's values are therefore evaluated HERE
+   (cross-multiplication only) and only the verdicts are printed; the scalar
+   results (quotients of floats) are printed exactly. *)
+Definition close (rt ab a b : Q) : bool :=       (* |a - b| <= rt |b| + ab *)
+  Qle_bool (Qabs (a - b)) (rt * Qabs b + ab).
 
-(* [1; b1; h0; t1; d2; b2; x; h1; h; |y0|^2; |f0|^2; |arg|^2; n; y1...; arg...] *)
+(* index (from 1) of the first component of [impl] that is not close to the
+   model's; 0 if all are; -1 on a length mismatch *)
+Fixpoint first_bad (k : Z) (rt ab : Q) (impl model : list Q) : Z :=
+  match impl, model with
+  | [], [] => 0%Z
+  | a :: ri, b :: rm => if close rt ab a b then first_bad (k + 1) rt ab ri rm else k
+  | _, _ => (-1)%Z
+  end.
+
+(* Euler step: |y1_impl - y1| <= rt (|y0_i| + |h0 f0_i|) + ab *)
+Fixpoint first_bad_euler (k : Z) (rt ab h0 : Q) (impl model y0 f0 : list Q) : Z :=
+  match impl, model, y0, f0 with
+  | [], [], [], [] => 0%Z
+  | a :: ri, b :: rm, y :: ry, g :: rg =>
+      if Qle_bool (Qabs (a - b)) (rt * (Qabs y + Qabs (h0 * g)) + ab)
+      then first_bad_euler (k + 1) rt ab h0 ri rm ry rg else k
+  | _, _, _, _ => (-1)%Z
+  end.
+
+(* [1; b1; h0; t1; d2; b2; x; h1; h; ok|y0|^2; ok|f0|^2; ok|arg|^2; bad_y1; bad_arg]
+   rt = relative tolerance, asq = absolute slack for squared norms (underflow
+   of squares in float64), asm = absolute slack for components (denormals) *)
 Definition c18_adaptive (atol rtol : Q) (rate : nat) (t0 : Q) (y0 f0 f1 : list Q)
-           (d0 d1 n2 rootval : Q) : list Z :=
+           (d0 d1 n2 rootval : Q) (y1_impl arg_impl : list Q) (rt asq asm : Q) : list Z :=
   let f := two_point_field t0 f0 f1 in
   let nrm := table_norm [(y0, d0); (f0, d1)] n2 in
   let root := fun (_ : Q) (_ : nat) => rootval in
-  showQ_raw (match dt0_adaptive f nrm root t0 y0 rate rtol atol with
+  showQ (match dt0_adaptive f nrm root t0 y0 rate rtol atol with
          | None => None
          | Some r =>
-           Some ([qb (at_b1 r); at_h0 r; at_t1 r; at_d2 r; qb (at_b2 r); at_x r;
-                  at_h1 r; at_h r; norm_sq y0; norm_sq f0; norm_sq (at_arg2 r);
-                  inject_Z (Z.of_nat (length (at_y1 r)))]
-                 ++ at_y1 r ++ at_arg2 r)
+           Some [qb (at_b1 r); at_h0 r; at_t1 r; at_d2 r; qb (at_b2 r); at_x r;
+                 at_h1 r; at_h r;
+                 qb (close rt asq (d0 * d0) (norm_sq y0));
+                 qb (close rt asq (d1 * d1) (norm_sq f0));
+                 qb (close rt asq (n2 * n2) (norm_sq (at_arg2 r)));
+                 inject_Z (first_bad_euler 1 rt asm (at_h0 r) y1_impl (at_y1 r) y0 f0);
+                 inject_Z (first_bad 1 rt asm arg_impl (at_arg2 r))]
          end).
 
-(* [1; dt0; |u0|^2; |f0|^2] *)
-Definition c18_simple (scale nugget t : Q) (u0 f0 : list Q) (d0 d1 : Q) : list Z :=
+(* [1; dt0; ok|u0|^2; ok|f0|^2] *)
+Definition c18_simple (scale nugget t : Q) (u0 f0 : list Q) (d0 d1 rt asq : Q) : list Z :=
   let f := fun (_ : Q) (_ : list Q) => f0 in
   let nrm := table_norm [(u0, d0)] d1 in
-  showQ_raw (Some [dt0_simple f nrm scale nugget t u0; norm_sq u0; norm_sq f0]).
+  showQ (Some [dt0_simple f nrm scale nugget t u0;
+               qb (close rt asq (d0 * d0) (norm_sq u0));
+               qb (close rt asq (d1 * d1) (norm_sq f0))]).
